@@ -76,6 +76,7 @@ class Ctx:
         self.build = os.path.join(VERIF, 'build', pid)
         shutil.rmtree(self.build, ignore_errors=True)
         os.makedirs(self.build, exist_ok=True)
+        shutil.rmtree(os.path.join(VERIF, 'replays', pid), ignore_errors=True)   # replays of earlier runs are stale
         self.obligations = []        # dicts: name, ok, kind, detail
         self.evals = 0
         self.distinct = set()
